@@ -30,6 +30,19 @@ CLAIMED = {
             "live objects are trace-validated.",
             "gzip/base64 codecs trusted; window of 8/16 bits, all other bytes only checked to remain zero.",
             "DESIGN.md §3 C12"),
+    "C04": ("TLA+ spec Document (set-of-entries model of CoreDocument, code-shaped guards) model-checked by TLC; every "
+            "transition and every state's resolution table replayed on real documents; random histories trace-validated",
+            "model_checking",
+            "TLC explores every document reachable from every small valid initial document (incl. dangling/foreign references) "
+            "under all six checked mutations with every argument, checking the id-uniqueness/aliasing/service-id invariants in "
+            "every state and refusal-leaves-unchanged on every transition; each transition is replayed on real CoreDocuments "
+            "(deserialised and builder-built, model relationships mapped onto all order-preserving choices of the five real "
+            "ones) comparing result, resulting document, JSON round trip, and the complete resolution table (every query x "
+            "scope, resolve_method/_mut/resolve_service, by entry identity); long random histories over 12 ids x 5 "
+            "relationships are validated against the spec by TLC.",
+            "Exhaustive inside 3 ids x 2 relationships (quick) / 4 ids incl. a URL-query variant (thorough, sampled replay); "
+            "method/service content other than ids assumed irrelevant.",
+            "DESIGN.md §3 C04"),
 }
 
 NOT_YET = "check not built yet in this session (work in progress; see DESIGN.md §3 for the planned TLA+ spec and binding)"
